@@ -27,6 +27,35 @@ QNC = "QuasiNeutralitySolver"
 # Both only produce a *view* used for recognition; the shared syntax trees are never modified.
 # =========================================================================================================
 
+def _store(chk):
+    """the attribute dictionary of the underlying check (views of it - ViewedCheck, the silent proxy - share its caches)"""
+    while "_chk" in chk.__dict__:
+        chk = chk.__dict__["_chk"]
+    return chk.__dict__
+
+
+class _Silent:
+    """the check with its obligations discarded: an analysis run for the facts it extracts (cached in the check), not for verdicts"""
+
+    def __init__(self, chk):
+        self.__dict__["_chk"] = chk
+
+    def ob(self, *a, **k):
+        return None
+
+    def pat(self, *a, **k):
+        return None
+
+    def floor(self, *a, **k):
+        return None
+
+    def __getattr__(self, name):
+        return getattr(self._chk, name)
+
+    def __setattr__(self, name, value):
+        setattr(self._chk, name, value)
+
+
 def _clone(n):
     if isinstance(n, list):
         return [_clone(x) for x in n]
@@ -252,7 +281,7 @@ def _fold_constants(stmts):
 
 def flat_view(chk, rel, cls, meth):
     """private copy of `cls.meth` with the calls of helper methods (methods the reference tree does not have) expanded"""
-    cache = chk.__dict__.setdefault("_c14_views", {})
+    cache = _store(chk).setdefault("_c14_views", {})
     key = (rel, cls, meth)
     if key not in cache:
         # the definition `cls` runs: its own or the one it inherits from a base class of the module
@@ -288,7 +317,7 @@ def _raw_method(mod, owner, meth):
 
 def flat_function(chk, rel, name):
     """private copy of a plain function with the calls of its local functions and of new module-level helpers expanded"""
-    cache = chk.__dict__.setdefault("_c14_views", {})
+    cache = _store(chk).setdefault("_c14_views", {})
     key = (rel, None, name)
     if key not in cache:
         cache[key] = _flatten(chk, rel, chk.func(rel, name), None)
@@ -396,9 +425,19 @@ def _flatten(chk, rel, fn0, cls):
         count[0] += 1
         tag = f"__h{count[0]}"
         body = _clone([s for s in h.body if not (isinstance(s, ast.Expr) and isinstance(s.value, ast.Constant))])
-        if any(isinstance(n, (ast.FunctionDef, ast.AsyncFunctionDef, ast.ClassDef, ast.Yield, ast.YieldFrom, ast.Global, ast.Nonlocal,
+        if any(isinstance(n, (ast.FunctionDef, ast.AsyncFunctionDef, ast.ClassDef, ast.YieldFrom, ast.Global, ast.Nonlocal,
                               ast.Try, ast.With)) for s in body for n in ast.walk(s)):
             return False
+        # a generator is written back only where a `for` statement iterates over its call: `for t in gen(a): B` runs the body of gen
+        # with every `yield v` replaced by `t = v; B`
+        is_gen = any(isinstance(n, ast.Yield) for s in body for n in ast.walk(s))
+        if is_gen:
+            ys = [n for s in body for n in ast.walk(s) if isinstance(n, ast.Yield)]
+            ystmts = [n for s in body for n in ast.walk(s) if isinstance(n, ast.Expr) and isinstance(n.value, ast.Yield)]
+            if not (isinstance(st, ast.For) and st.iter is call) or st.orelse or len(ys) != len(ystmts) or len(ys) != 1 or \
+                    any(isinstance(n, (ast.Break, ast.Continue)) for s_ in st.body for n in ast.walk(s_)) or \
+                    any(isinstance(n, ast.Return) for s in body for n in ast.walk(s)) or any(y.value is None for y in ys):
+                return False
         stored = {n.id for s in body for n in ast.walk(s) if isinstance(n, ast.Name) and isinstance(n.ctx, ast.Store)}
         caller_names = {n.id for n in ast.walk(fn) if isinstance(n, ast.Name)} | set(_params(fn))
         rename, subst, pre = {}, {}, []
@@ -428,7 +467,31 @@ def _flatten(chk, rel, fn0, cls):
         if blk is None:
             return False
         keep_st = False
-        if isinstance(st, ast.Expr) and st.value is call:
+        if is_gen:
+            def handover(v):
+                tg = st.target
+                if isinstance(tg, (ast.Tuple, ast.List)) and isinstance(v, (ast.Tuple, ast.List)) and len(tg.elts) == len(v.elts) and \
+                        all(isinstance(e_, ast.Name) for e_ in tg.elts) and not any(isinstance(e_, ast.Starred) for e_ in v.elts) and \
+                        not ({e_.id for e_ in tg.elts} & {n.id for x_ in v.elts for n in ast.walk(x_) if isinstance(n, ast.Name)}):
+                    # no target is read by the values (the generator's locals were renamed apart): element by element
+                    return [ast.Assign(targets=[_clone(t_)], value=x_) for t_, x_ in zip(tg.elts, v.elts)]
+                return [ast.Assign(targets=[_clone(tg)], value=v)]
+
+            def expand(stmts):
+                out = []
+                for s_ in stmts:
+                    if isinstance(s_, ast.Expr) and isinstance(s_.value, ast.Yield):
+                        out += handover(s_.value.value) + _clone(st.body)
+                        continue
+                    for f_ in ("body", "orelse", "finalbody"):
+                        b_ = getattr(s_, f_, None)
+                        if isinstance(b_, list) and b_ and isinstance(b_[0], ast.stmt):
+                            setattr(s_, f_, expand(b_))
+                    out.append(s_)
+                return out
+            body = expand(body)
+            ok = True
+        elif isinstance(st, ast.Expr) and st.value is call:
             ok = _convert_returns(body, lambda v: (ast.Expr(value=v) if isinstance(v, ast.Call) else None), True)
         elif isinstance(st, ast.Assign) and st.value is call:
             tg = st.targets
@@ -733,7 +796,7 @@ def _bound_inside(e):
 
 
 def env_of(chk, fn):
-    cache = chk.__dict__.setdefault("_c14_envs", {})
+    cache = _store(chk).setdefault("_c14_envs", {})
     if id(fn) not in cache:
         cache[id(fn)] = (fn, Env(fn))
     return cache[id(fn)][1]
@@ -867,6 +930,8 @@ def arith_equal(code, spec_src):
 W, MF, X = sp.symbols("W MF X")
 PHI0, PHI1, PSI0, PSI1 = sp.symbols("PHI0 PHI1 PSI0 PSI1")      # trial phi_{s_j} / test-row psi_i and derivatives
 A_, B_, C_, D_, E_ = sp.symbols("A B C D E")                     # coefficient functions at the quadrature points
+
+INTEGRAND_SYMS = {PHI0, PHI1, PSI0, PSI1, X, A_, B_, C_, D_, E_}
 
 COEFF_FUNCS = {"ddrFactor": A_, "drFactor": B_, "rFactor": C_, "ddThetaFactor": D_, "rhoFactor": E_}
 
@@ -1037,6 +1102,13 @@ def containers(fn, env):
     return out
 
 
+def _created_empty(v):
+    """a list of zero arrays / a zero or empty (sparse) matrix"""
+    if isinstance(v, ast.ListComp):
+        v = v.elt
+    return isinstance(v, ast.Call) and src(v.func).split(".")[-1] in ("zeros", "lil_matrix", "dok_matrix", "lil_array", "dok_array", "zeros_like")
+
+
 def block_lists(fn, env=None):
     """{block: name of the container (list of diagonals / matrix of entries) it is built from}"""
     return {b: c[1] for b, c in containers(fn, env).items()}
@@ -1107,6 +1179,9 @@ def quadrature_order(chk, fn, env, narg, site):
             good = False
         elif isinstance(n, (ast.Attribute, ast.Subscript, ast.Lambda, ast.ListComp, ast.GeneratorExp, ast.Await, ast.Yield)):
             good = False
+    # AUDIT (VIOLATED below): true of the code when the argument of the one leggauss call was resolved without ambiguity to a closed
+    # integer expression of the constructor's own `degree` argument and the spline degree (checked: `good`; anything else - other
+    # names, calls, attributes - is undecided); the verdict is the arithmetic fact 2n - 1 < degree for a concrete degree
     if good:
         try:
             code = compile(e2, "<npoints>", "eval")
@@ -1199,6 +1274,8 @@ def assembly(chk):
     stop = ASSEMBLY_STOP | {jn, sjn, iv}
     wrong_basis = []
     seen = set()
+    signs = {}              # role of the container -> +1 / -1 (stored with the opposite sign) / None (not established)
+    resolved = {c_[1] for c_ in conts.values()}      # containers whose block is `diags(container, ...)[...]` / `container.tocsc()[...]`
     unkeyed = set()
     misplaced = []
     block_got = {}
@@ -1241,7 +1318,11 @@ def assembly(chk):
                         shifted = any(sp.expand(a_).is_number and sp.expand(b_).is_number for a_, b_ in ((dr, dc), (er, ec)))
                     except KeyError:
                         pass
-                    if None not in pos or shifted:
+                    # AUDIT: the position is wrong only relative to the reader of the matrix: the container -> block step was
+                    # resolved (the matrix is converted as it is, its shape (nbasis, nbasis) is checked by the window analysis of
+                    # F4-mode-operator) and the index is the row / column shifted by a literal number or an arithmetic expression
+                    # of the loop variables alone; an offset by a name (a matrix assembled for a sub-range) is undecided
+                    if (None not in pos or shifted) and name in resolved:
                         misplaced.append(cname)
                         chk.ob("F4-assembly-indexing", st, place, False,
                                f"the integral of row function {iv} and column function {sjn} is written at `[{src(r_)}, {src(c_)}]`, which is "
@@ -1280,6 +1361,10 @@ def assembly(chk):
             row = src(t.slice)
             shown = None
         key = (cname, diag)
+        # AUDIT: list entry L lands on diagonal (first offset + L) of sparse.diags(list, range(first offset, ...)): writer (the list
+        # index) and reader (the offsets of the very diags call this list is handed to, by name) are compared with each other; a
+        # constant mismatch between them is a wrong diagonal whatever convention is used.  Only decided when index, offset and counter
+        # start are plain references (`_atomic`)
         if shift is not None and cname in what:
             misplaced.append(cname)
             inv_ = {v: k for k, v in tb.items()}
@@ -1315,11 +1400,31 @@ def assembly(chk):
             return
         block_got[key] = sp.expand(got)
         shown_ = shown or f"{cname}[{diag}][{row}]"
-        if not ok and cname in ("dPhidPsiCoeffs", "dPhiPsiCoeffs", "PhiPsiCoeffs") and \
-                alg_equal(sp.expand(got), sp.expand(-spec[key])):
-            # a block stored with the opposite sign is a convention; the assembled operator decides (F4-weak-form-operator)
-            chk.ob("F4-weak-form", st, shown_, True, what[cname] + " - stored with the opposite sign; the sign is "
+        # AUDIT (VIOLATED below): the diagnosis "the integrand differs from the weak form" is true of the code when (1) every factor
+        # was recognised (else KeyError above), (2) the block is built from this container as it is (the container -> block step was
+        # resolved: no factor applied where the block is built), (3) the difference is not a convention shared by both sides of the
+        # equation: a block stored with the opposite sign or scaled by a constant (1/2 of a full-width `multFactor`, ...) is judged
+        # relationally (F4-weak-form-operator compares operator and mass matrix with their signs; a scale is not followed: undecided)
+        ratio = None
+        if not ok:
+            try:
+                ratio = sp.simplify(sp.expand(got) / sp.expand(spec[key]))
+            except Exception:
+                ratio = None
+        scalar = ratio is not None and ratio != 0 and not (ratio.free_symbols & INTEGRAND_SYMS)
+        sgn = sp.Integer(1) if ok else (ratio if scalar else None)
+        signs[cname] = sgn if signs.get(cname, sgn) == sgn else None
+        if not ok and scalar:
+            # a block stored with the opposite sign / a constant factor is a convention shared with the other side of the equation: the
+            # assembled operator, the mass matrix and the coefficient of the k2 block are compared with one another
+            # (F4-weak-form-operator, F4-mode-power)
+            chk.ob("F4-weak-form", st, shown_, True, what[cname] + (" - stored with the opposite sign; the sign is " if ratio == -1 else
+                                                                 f" - stored scaled by the constant {ratio}; the factor is ") +
                    "accounted for where the operator is assembled", file=U.POISSON, func=q)
+            return
+        if not ok and name not in resolved:
+            chk.ob("F4-weak-form", st, shown_, None, f"integrand {sp.expand(got)} differs from the weak form {sp.expand(spec[key])}, but how the "
+                   f"block is built from `{name}` was not resolved (a factor may be applied there)", file=U.POISSON, func=q)
             return
         chk.ob("F4-weak-form", st, shown_, ok, what[cname] if ok else
                f"integrand {sp.expand(got)} differs from the weak form {sp.expand(spec[key])} ({what[cname]})",
@@ -1334,6 +1439,8 @@ def assembly(chk):
     # the functions integrated are the row function i and the column function s_j of the entry
     okf = bool(seen) and not unkeyed and not wrong_basis and len(block_got) == len(seen)
     bad = None
+    # AUDIT: raised only for `self._rspline[<constant>].eval(...)`: an index that is arithmetic over no loop variable at all, hence
+    # neither the row nor the column function; any other unknown index is an unrecognised factor (undecided)
     if wrong_basis:
         bad = (f"the entry of row {iv} and column {sjn} integrates basis function `{wrong_basis[0][1]}`, which is neither the row "
                f"function self._rspline[{iv}] nor the column function self._rspline[{sjn}]")
@@ -1343,7 +1450,11 @@ def assembly(chk):
     # the loop header: columns i .. i+degree of row i (the relation counter <-> diagonal is judged statement by statement above)
     ok_it = same_expr(rng, f"range({iv}, min({iv} + {DEG} + 1, {NB}))") and not unkeyed and bool(seen)
     bad = None
-    if len(rng.args) >= 2 and arith_equal(rng.args[0], iv) is False:
+    # entries written by statements outside this loop (the diagonal handled on its own, a second pass, ...)
+    elsewhere = {role.get(et_[0]) or et_[0] for n in ast.walk(fn) if isinstance(n, ast.Assign) and not any(n is s_ for s_ in lp.body)
+                 for t_ in n.targets for et_ in [entry_target(t_)] if et_ is not None}
+    # AUDIT: "the columns do not start at the row" leaves the main diagonal unwritten only when no other statement writes entries
+    if len(rng.args) >= 2 and arith_equal(rng.args[0], iv) is False and not elsewhere and not unkeyed:
         bad = (f"the columns `{sjn}` start at `{src(rng.args[0])}` instead of the row `{iv}`: the upper diagonals no longer pair "
                f"row {iv} with columns {iv}..{iv}+degree")
     if not misplaced:
@@ -1353,10 +1464,34 @@ def assembly(chk):
     # the mirrored entries of the symmetric blocks need no statement of their own when the storage aliases them (judged below)
     missing = {k_ for k_ in set(spec) - seen if not (k_[0] in SYM and k_[1] == LOW)}
     if missing:
-        # entries written by statements this rule did not key (other loop, other index form) cannot be judged
-        elsewhere = {role.get(et_[0]) or et_[0] for n in ast.walk(fn) if isinstance(n, ast.Assign) and not any(n is s_ for s_ in lp.body)
-                     for t_ in n.targets for et_ in [entry_target(t_)] if et_ is not None}
-        decided = not any(nm in unkeyed or nm in elsewhere or nm in misplaced for nm, _ in missing) and all(role.get(c_) for c_ in role)
+        # entries written by statements this rule did not key (other loop, other index form) cannot be judged.
+        # AUDIT: "these diagonals stay zero" needs every way of filling the container to have been seen: its block was resolved, it is
+        # only named where it is created, filled entry by entry in this loop, mirrored and handed to the block, and it is created empty
+        by_cont = {v_: k_ for k_, v_ in role.items() if v_}
+
+        def only_known_uses(nm):
+            cont_ = by_cont.get(nm, nm)
+            if cont_ not in resolved:
+                return False
+            for x in ast.walk(fn):
+                if not (isinstance(x, ast.Name) and x.id == cont_):
+                    continue
+                st_ = _stmt_of(x)
+                if st_ is None:
+                    return False
+                if any(st_ is s_ for s_ in lp.body) and isinstance(st_, ast.Assign) and any(entry_target(t_) for t_ in st_.targets):
+                    continue                                            # an entry store of the loop
+                if isinstance(st_, ast.Assign) and any(isinstance(t_, ast.Name) and t_.id == cont_ for t_ in st_.targets) and \
+                        isinstance(x.ctx, ast.Store) and _created_empty(st_.value):
+                    continue                                            # its creation
+                if isinstance(st_, ast.Expr) and same_expr(st_.value, f"{cont_}.extend({cont_}[-2::-1])"):
+                    continue                                            # the mirror aliases of a symmetric block
+                if isinstance(st_, ast.Assign) and src(st_.targets[0]) in BLOCKS:
+                    continue                                            # handed to the block
+                return False
+            return True
+        decided = not any(nm in unkeyed or nm in elsewhere or nm in misplaced for nm, _ in missing) and all(role.get(c_) for c_ in role) \
+            and all(only_known_uses(nm) for nm, _ in missing)
         chk.ob("F4-weak-form", lp, "assembly statements", False if decided else None,
                f"no assembly statement for {sorted(missing)}" + (": these diagonals stay zero" if decided else
                                                                   " in the recognised form (written elsewhere?)"), file=U.POISSON, func=q)
@@ -1367,7 +1502,9 @@ def assembly(chk):
         if scheme.get(cont) == "matrix":
             both = (nm, UP) in block_got and (nm, LOW) in block_got
             bad = None
-            if (nm, UP) in seen and (nm, LOW) not in seen and nm not in unkeyed:
+            # AUDIT: "the lower entries stay zero" needs the block to be this matrix as it is (no symmetrisation where it is built)
+            # and no other statement writing entries of it
+            if (nm, UP) in seen and (nm, LOW) not in seen and nm not in unkeyed and cont in resolved and nm not in elsewhere:
                 bad = (f"only the entries ({iv}, {sjn}) of `{cont}` are written: the entries below the diagonal of this symmetric block "
                        "stay zero, the matrix is not the symmetric form")
             chk.pat("F4-symmetric-storage", fn, f"{cont}[i, s_j] and {cont}[s_j, i]", both,
@@ -1388,7 +1525,9 @@ def assembly(chk):
             aug = [n for n in ast.walk(fn) if isinstance(n, ast.AugAssign) and src(n.target) == cont]
             full = len(defs) == 1 and isinstance(defs[0].value, ast.ListComp) and \
                 same_expr(env.x(defs[0].value.generators[0].iter, use=defs[0]), f"range(-{DEG}, {DEG} + 1)")
-            if full and not ext and not aug and (nm, LOW) not in seen and nm not in unkeyed and (nm, UP) in seen:
+            # AUDIT: as above - the list is handed to the block as it is, nothing else fills or aliases its lower half
+            if full and not ext and not aug and (nm, LOW) not in seen and nm not in unkeyed and (nm, UP) in seen and cont in resolved \
+                    and nm not in elsewhere:
                 bad = (f"`{cont}` is created with 2*degree+1 independent diagonals and the assembly fills only the upper ones: the lower "
                        "diagonals of this symmetric block stay zero, the matrix is not the symmetric form")
         chk.pat("F4-symmetric-storage", fn, f"{nm}.extend({nm}[-2::-1])", ok,
@@ -1400,6 +1539,8 @@ def assembly(chk):
         tg = quad[0].targets[0]
         okl = isinstance(tg, ast.Tuple) and len(tg.elts) == 2 and src(tg.elts[0]) == "points" and src(tg.elts[1]) == "self._weights"
         bad = None
+        # AUDIT: leggauss returns (points, weights) - a library fact; the names are roles here because the integrands (judged above
+        # with `self._weights` as the weight factor) and the cell mapping (`points`) use them as such; only the exact exchange is reported
         if not okl and isinstance(tg, ast.Tuple) and len(tg.elts) == 2 and src(tg.elts[0]) == "self._weights" and src(tg.elts[1]) == "points":
             bad = "leggauss returns (points, weights): the weights are used as points and the points as weights"
         chk.pat("F4-quadrature-points", quad[0], "points, self._weights = leggauss(n)", okl,
@@ -1424,27 +1565,39 @@ def assembly(chk):
         items.append(("startPoints", r[2] if r[0] == "def" else None, r[1] if r[0] == "def" else None, (),
                       "(self._rspline.breaks[1:] + self._rspline.breaks[:-1]) * 0.5", "cell midpoints",
                       "the cell midpoints are `{got}` instead of (b[k+1] + b[k])/2: the quadrature points leave their cells"))
+    # AUDIT: each of these values is one side of a contract with the integrands that use it (a full-width `multFactor` halved where
+    # it is used is the same quadrature): a different value is a defect only when every integrand was found to use it exactly as
+    # the weak form does (all entries matched up to sign)
+    exact_use = bool(block_got) and not unkeyed and not wrong_basis and all(signs.get(k_[0]) in (1, -1) for k_ in block_got)
     for nm, val, at, stop_, spec_src, good_, bad_ in items:
         res, got = None, "?"
         if val is not None:
             ex = env.x(val, stop=stop_, use=at)
             got = src(ex)
             res = arith_equal(ex, spec_src) if not env.amb else None
+            if res is False and not exact_use:
+                res = None
         chk.pat("F4-quadrature-points", at if at is not None else fn, f"{nm} = {spec_src}", res, good_,
                 bad_.format(got=got[:80]) if res is False else None, file=U.POISSON, func=q)
     # operator composition: the assembled theta-independent operator, block by block
     vec = operator_blocks(chk)
     lists = block_lists(fn, env)
     ok, why = None, "operator composition not extractable"
+    sigma = None
     if vec is not None and all(a_ in lists for a_ in vec):
+        # AUDIT (VIOLATED below): true of the code when the integrand of every block entering the operator was extracted (the upper
+        # integrand stands for the mirrored one only for the symmetric blocks, whose lower diagonals alias the upper ones) and the
+        # difference is not the common sign of the equation: -S phi = -M rho is the same system, so the sign of the operator is
+        # compared with the sign the mass matrix is stored with
         ok = True
         parts = []
+        sigmas = []
         for diag in (UP, LOW):
             tot = 0
             want = spec[("dPhidPsiCoeffs", diag)] + spec[("dPhiPsiCoeffs", diag)] + spec[("PhiPsiCoeffs", UP)]
             for a_, c_ in vec.items():
                 ln_ = role.get(lists[a_]) or lists[a_]
-                key = (ln_, diag) if (ln_, diag) in block_got else (ln_, UP)
+                key = (ln_, diag) if ((ln_, diag) in block_got or ln_ not in SYM) else (ln_, UP)
                 if key not in block_got:
                     ok = None
                     why = f"integrand of block {a_} not extracted"
@@ -1452,14 +1605,37 @@ def assembly(chk):
                 tot += c_ * block_got[key]
             if ok is None:
                 break
-            if not alg_equal(sp.expand(tot), sp.expand(want)):
+            try:
+                r_ = sp.simplify(sp.expand(tot) / sp.expand(want))
+            except Exception:
+                r_ = None
+            if r_ is not None and r_ != 0 and not (r_.free_symbols & INTEGRAND_SYMS):
+                sigmas.append(r_)
+            else:
                 ok = False
                 parts.append(f"{'upper' if diag == UP else 'lower'} diagonals: {sp.expand(tot)} instead of {sp.expand(want)}")
+        if ok and any(sp.simplify(x_ - sigmas[0]) != 0 for x_ in sigmas):
+            ok = False
+            parts.append(f"the upper diagonals carry {sigmas[0]} x the weak form and the lower ones {sigmas[1]} x")
         if ok:
+            sigma = sigmas[0]
+            s_m = signs.get("massCoeffs")
             why = ("sum over blocks (with their signs) of the assembled integrands = -A phi' psi' r - A phi' psi + B phi' psi r + C phi psi r "
                    f"on upper and lower diagonals; blocks {dict((k, str(v)) for k, v in vec.items())}")
+            if s_m is not None and sp.simplify(s_m - sigma) == 0:
+                if sigma != 1:
+                    why = (f"the operator and the mass matrix are both stored as {sigma} x the weak form ({sigma} S phi = {sigma} M rho, the same "
+                           "system): ") + why
+            elif s_m is not None:
+                ok = False
+                why = (f"the assembled theta-independent operator is {sigma} x the weak form of A phi'' + B phi' + C phi while the mass matrix "
+                       f"is stored as {s_m} x the mass form: the system solved is S phi = ({sp.simplify(s_m / sigma)}) M rho, the solution is "
+                       "off by that factor")
+            elif sigma != 1:
+                ok, why = None, f"the operator is assembled as {sigma} x the weak form; the factor of the mass matrix was not established"
         elif ok is False:
             why = "the assembled theta-independent operator is not the weak form of A phi'' + B phi' + C phi: " + "; ".join(parts)
+    _store(chk)["_c14_signs"] = {"sigma": sigma, "k2": signs.get("k2PhiPsiCoeffs"), "blocks": dict(signs)}
     chk.ob("F4-weak-form-operator", fn, "self._stiffnessMatrix = sum of blocks", ok, why, file=U.POISSON, func=q)
     # diagonals -> matrices: 2*degree+1 consecutive offsets (which list entry lands on which offset is part of F4-assembly-indexing)
     for n in ast.walk(fn):
@@ -1474,9 +1650,20 @@ def assembly(chk):
                 if isinstance(off, ast.Call) and src(off.func) == "range" and len(off.args) == 2 and not off.keywords:
                     lo_, hi_ = arith_equal(off.args[0], f"-{DEG}"), arith_equal(off.args[1], f"{DEG} + 1")
                     okb = bool(lo_ and hi_) or None
-                    if lo_ is False or hi_ is False:
-                        badb = (f"the diagonals `{src(off)[:50]}` of the matrix of entries are kept; the assembly writes the diagonals "
-                                "-degree .. degree: entries are dropped from the block / diagonals that do not exist are requested")
+                    # AUDIT: a wider band only adds zero diagonals (harmless); entries are lost only when the band kept is provably
+                    # narrower than -degree .. degree
+                    try:
+                        tb_ = {}
+                        d_lo = sp.expand(_sym(off.args[0], tb_) + _sym(ast.parse(DEG, mode="eval").body, tb_))
+                        d_hi = sp.expand(_sym(ast.parse(DEG, mode="eval").body, tb_) + 1 - _sym(off.args[1], tb_))
+                        if d_lo.is_number and d_hi.is_number:
+                            if d_lo > 0 or d_hi > 0:
+                                badb = (f"the diagonals `{src(off)[:50]}` of the matrix of entries are kept; the assembly writes the diagonals "
+                                        "-degree .. degree: entries are dropped from the block")
+                            else:
+                                okb = True
+                    except KeyError:
+                        pass
                 chk.pat("F4-operator", n, f"{src(n.targets[0])} = sparse.diags(diagonals of <matrix of entries>, range(-d, d+1))", okb,
                         "the block is the band -degree .. degree of the matrix whose entries were written at their (row, column) positions: "
                         "every diagonal is put back on the offset it was taken from", badb, file=U.POISSON, func=q)
@@ -1686,7 +1873,7 @@ def strip_power(e):
 
 
 def mode_tables(chk):
-    cache = chk.__dict__.setdefault("_c14_modetables", [])
+    cache = _store(chk).setdefault("_c14_modetables", [])
     if not cache:
         cache.append(ModeTables(chk))
     return cache[0]
@@ -1755,6 +1942,10 @@ def membership_order(chk):
         # one verdict per statement: the worst of its tests
         rank = {True: 0, None: 1, False: 2}
         verdict = True if pw == 1 else (False if isinstance(pw, int) and pw > 1 else None)
+        # AUDIT: "the lists hold the signed mode numbers m" is the caller's contract for the constructor's arguments: a list rebound
+        # in the constructor (squared along with the table, ...) is not the argument any more
+        if verdict is False and (env.bind.get(_bare_list(lst)) or env.mut.get(_bare_list(lst))):
+            verdict = None
         if prev is None or rank[verdict] > rank[prev[0]]:
             seen[key] = (verdict, st, table, pw, src(c))
     for verdict, st, table, pw, text in seen.values():
@@ -1827,11 +2018,7 @@ def _reset_targets(st):
     if isinstance(st, ast.Assign) and isinstance(st.value, ast.Constant) and st.value.value == 0 and not isinstance(st.value.value, bool):
         for t in st.targets:
             if isinstance(t, ast.Subscript) and src(t.value) == "self._coeffs":
-                s = src(t.slice).replace(" ", "")
-                if s in ("0", "-1"):
-                    out.add(int(s))
-                elif s in ("[0,-1]", "[-1,0]", "(0,-1)", "(-1,0)"):
-                    out |= {0, -1}
+                out |= _boundary_entries(t.slice) or set()
     return out
 
 
@@ -1933,6 +2120,9 @@ def neumann_tables(chk, fn_init):
                 if rel:
                     ok, why = True, "one slice per mode: the unknowns of the mode relative to the rows / columns the blocks are stored with"
                 else:
+                    # AUDIT: both diagnoses are obtained by EVALUATING the slice for every combination of the boundary predicates
+                    # (absolute, or relative to the window the blocks are stored with - writer and readers composed); they are
+                    # stated only when the table equals the unknowns of the exchanged / negated predicates in every case
                     swap = [dict(f, l=f["u"], u=f["l"], L=f["U"], U=f["L"]) for f in FLAG_CASES]
                     flip = [dict(f, l=not f["l"], u=not f["u"]) for f in FLAG_CASES]
                     for alt, text in ((swap, "the lower end of the slice is decided by the upper-boundary Neumann list and the upper end by the "
@@ -1953,12 +2143,8 @@ def neumann_tables(chk, fn_init):
                                "nor their position among the stored rows - judged where the table is used")
         except KeyError as e_:
             why = "slice bounds not followed: " + str(e_).strip('"\'')
-        if ok is None and bad is None:
-            # the bounds could not be evaluated / matched: at least the lists each end depends on
-            lo, hi = _members(sl.args[0], var), _members(sl.args[-1], var)
-            if lo == {"uNeumannIdx"} and hi == {"lNeumannIdx"}:
-                bad = ("the lower end of the slice is decided by the upper-boundary Neumann list and the upper end by the lower-boundary "
-                       "list: modes get the boundary conditions of the opposite boundary")
+        # AUDIT: every diagnosis above comes from evaluating the slice for all combinations of the boundary predicates; bounds that
+        # could not be evaluated are not guessed from the names of the lists they mention (undecided)
         if ok or bad:
             chk.pat("F4-mode-bookkeeping", site, T, ok, why, bad, file=U.POISSON, func=q)
         else:
@@ -2010,6 +2196,28 @@ class Ranges:
                     self.tables[T] = (site, var, sl)
                 else:
                     self.int_tables[T] = (site, var, sl)
+        # a table derived element by element from another table of slices, `[slice(u.start - a, u.stop - a) for u in self._T0]`: the
+        # bounds `u.start` / `u.stop` are the bounds of the slice of the same mode in T0 (written back in place)
+        for T, site, var, it, sl in range_tables(chk, self.fn):
+            if src(it) == T or src(it) not in self.tables or not (isinstance(sl, ast.Call) and src(sl.func) == "slice"):
+                continue
+            site0, var0, sl0 = self.tables[src(it)]
+            if len(sl0.args) != 2 or self.env.order.get(id(site0), 10 ** 9) >= self.env.order.get(id(site), -1):
+                continue
+            bare = [n for n in ast.walk(sl) if isinstance(n, ast.Name) and n.id == var and
+                    not (isinstance(parent(n), ast.Attribute) and parent(n).attr in ("start", "stop"))]
+            if bare or var0 in {n.id for n in ast.walk(sl) if isinstance(n, ast.Name)} - {var}:
+                continue
+
+            class B(ast.NodeTransformer):
+                def visit_Attribute(self_, n):
+                    if isinstance(n.value, ast.Name) and n.value.id == var and n.attr in ("start", "stop"):
+                        return _clone(sl0.args[0] if n.attr == "start" else sl0.args[1])
+                    return self_.generic_visit(n)
+            new = B().visit(_clone(sl))
+            ast.fix_missing_locations(new)
+            _relink(new, None)
+            self.tables[T] = (site, var0, new)
         self.qn = flat_view(chk, U.POISSON, QNC, "__init__")
         # the attributes that hold the tables (a table of records is looked up as T[mode][field])
         self.bases = {k.split("[.]")[0] for k in list(self.tables) + list(self.int_tables)}
@@ -2120,6 +2328,18 @@ class Ranges:
             return self.rng(v, f, o, var, length)
         raise KeyError(f"`{src(e)[:50]}` is not a slice of the spline space")
 
+    def _whole_space(self, shp, f, at, depth=0):
+        """the shape expression is (nbasis, nbasis); KeyError otherwise"""
+        if shp is None or depth > 6:
+            raise KeyError("the shape of the matrix the blocks are cut from is not given: not known to span the whole spline space")
+        if isinstance(shp, ast.Name):
+            v, o = self.definition(shp.id, f, at, None)
+            return self._whole_space(v, f, o, depth + 1)
+        if isinstance(shp, (ast.Tuple, ast.List)) and len(shp.elts) == 2:
+            if all(sp.simplify(self.num(x, f, at, None) - NB_SYM) == 0 for x in shp.elts):
+                return True
+        raise KeyError(f"the matrix the blocks are cut from has the shape `{src(shp)[:40]}`, not (nbasis, nbasis)")
+
     @staticmethod
     def compose(win, sel):
         return win[0] + sel[0], win[0] + sel[1]
@@ -2153,7 +2373,23 @@ class Ranges:
         if isinstance(e, ast.UnaryOp):
             return self.window(e.operand, f, at, depth + 1)
         if isinstance(e, ast.Call):
-            if _diags_call(e) is e or _matrix_source(e) is not None:
+            # AUDIT: every range below is an index range of the nbasis x nbasis matrix of the whole spline space: the matrix the
+            # blocks are cut from must be built with that shape (a matrix assembled for a sub-range, with the restriction moved into
+            # the assembly, would make every window wrong)
+            if _diags_call(e) is e:
+                shp = e.args[2] if len(e.args) > 2 else next((k.value for k in e.keywords if k.arg == "shape"), None)
+                self._whole_space(shp, f, at)
+                return (sp.Integer(0), NB_SYM), (sp.Integer(0), NB_SYM)
+            if _matrix_source(e) is not None:
+                # the one statement that creates the matrix (its entries are then written in place)
+                cands = self.env.bind.get(_matrix_source(e), [])
+                if len(cands) != 1 or cands[0][2] is None or parent(cands[0][1]) is not self.fn:
+                    raise KeyError(f"creation of the matrix `{_matrix_source(e)}` not found")
+                o_, _, alloc = cands[0]
+                shp = None
+                if isinstance(alloc, ast.Call):
+                    shp = alloc.args[0] if alloc.args else next((k.value for k in alloc.keywords if k.arg == "shape"), None)
+                self._whole_space(shp, f, o_)
                 return (sp.Integer(0), NB_SYM), (sp.Integer(0), NB_SYM)
             if isinstance(e.func, ast.Attribute) and e.func.attr in SPARSE_CONVERT:
                 return self.window(e.func.value, f, at, depth + 1)
@@ -2181,7 +2417,7 @@ class Ranges:
 
 
 def ranges_of(chk):
-    cache = chk.__dict__.setdefault("_c14_ranges", [])
+    cache = _store(chk).setdefault("_c14_ranges", [])
     if not cache:
         cache.append(Ranges(chk))
     return cache[0]
@@ -2217,6 +2453,11 @@ def qn_mode0_case(chk):
         return None
 
 
+# AUDIT (every VIOLATED produced from Ranges): the ranges are EVALUATED symbolically in nbasis for each combination of the
+# boundary predicates, composing the window the blocks are stored with (constructor) with the slices applied where they are used
+# (caller and per-mode solve).  They are true of the code when (1) the blocks are cut from an (nbasis, nbasis) matrix (checked by
+# `_whole_space`), (2) every name met has exactly one live definition under the case (else KeyError -> undecided), (3) slices have
+# no step.  Nothing is compared with the form the repository uses today.
 def restricted_to_unknowns(R, e, cases, want_cols=True):
     """(True / False / None, diagnosis): does the matrix expression hold exactly the rows (and columns) of the unknowns of the mode,
     for every case of the boundary conditions?  want_cols=False: the columns must be the whole spline space"""
@@ -2253,6 +2494,31 @@ def restricted_to_unknowns(R, e, cases, want_cols=True):
 COEFFS = "self._coeffs"
 BOUNDARY_SLICES = {"0": {0}, "-1": {-1}, "[0,-1]": {0, -1}, "[-1,0]": {0, -1}, "(0,-1)": {0, -1}, "(-1,0)": {0, -1}}
 PURE_READERS = ("np.", "numpy.")
+
+
+LAST_ENTRY = ("self._rspline.nbasis - 1", "len(self._coeffs) - 1", "self._coeffs.size - 1", "self._coeffs.shape[0] - 1",
+              "self._coeffs.shape[-1] - 1")
+
+
+def _boundary_entries(idx):
+    """the boundary coefficients an index expression of the coefficient buffer denotes: subset of {0, -1}, or None when it is not
+    (recognised as) made of boundary positions only.  Position nbasis - 1 is the last entry, -1"""
+    def one(e):
+        t = src(e).replace(" ", "")
+        if t in ("0", "-1"):
+            return {int(t)}
+        if any(arith_equal(e, w_) for w_ in LAST_ENTRY):
+            return {-1}
+        return None
+    if isinstance(idx, (ast.List, ast.Tuple)) and idx.elts:
+        parts = [one(e) for e in idx.elts]
+        if all(p_ is not None for p_ in parts):
+            return set().union(*parts)
+        return None
+    return one(idx)
+
+
+NUMPY_MUTATORS = ("copyto", "put", "place", "putmask", "put_along_axis", "fill_diagonal", "at")
 
 
 def _whole_slice(s_):
@@ -2351,15 +2617,21 @@ def coeff_events(st, env, subst=None, opaque=()):
         if not sls:
             out.append(("whole", kind))
         elif len(sls) == 1:
-            ents = BOUNDARY_SLICES.get(src(sls[0]).replace(" ", ""))
+            ents = _boundary_entries(sls[0])
             if ents is not None:
                 out.append(("reset", ents) if kind == "zero" else ("unknown", f"`{src(st)[:50]}` writes a boundary coefficient"))
             elif (isinstance(sls[0], ast.Slice) and not any(isinstance(x, (ast.Name, ast.Attribute, ast.Subscript, ast.Call))
                                                               for x in ast.walk(sls[0]))) or \
                     isinstance(sls[0], (ast.Constant, ast.UnaryOp, ast.List, ast.Tuple)):
                 out.append(("unknown", f"`{src(st)[:50]}` writes a fixed part of the buffer"))
-            else:
+            elif (isinstance(sls[0], ast.Slice) and sls[0].step is None) or isinstance(sls[0], (ast.Name, ast.Attribute, ast.Subscript)) or \
+                    (isinstance(sls[0], ast.Call) and src(sls[0].func) == "slice" and len(sls[0].args) <= 2):
+                # a range of the buffer given by names / a per-mode table: the unknowns of the mode (which range is F4-mode-solve's)
                 out.append(("store", kind))
+            else:
+                # AUDIT: any other index (a computed position such as nbasis - 1 in a form not recognised, a strided slice, a mask) may
+                # be the boundary entries or the unknowns: not classified
+                out.append(("unknown", f"`{src(st)[:50]}` writes entries of the buffer that were not classified"))
         else:
             out.append(("unknown", f"`{src(st)[:50]}`"))
     if vx is not None and any(isinstance(n, ast.Attribute) and src(n) == COEFFS for n in ast.walk(vx)):
@@ -2375,7 +2647,11 @@ def coeff_events(st, env, subst=None, opaque=()):
                 mentions = any(isinstance(n, ast.Attribute) and src(n) == COEFFS for a_ in list(c.args) + [k.value for k in c.keywords]
                                for n in ast.walk(a_))
                 on_it = isinstance(c.func, ast.Attribute) and any(isinstance(n, ast.Attribute) and src(n) == COEFFS for n in ast.walk(c.func.value))
-                if mentions and not src(c.func).startswith(PURE_READERS):
+                # AUDIT: a numpy function reads its arguments - except through out= / where=, and except the few that write their
+                # first argument
+                into = any(k.arg in ("out", "where") and any(isinstance(n, ast.Attribute) and src(n) == COEFFS for n in ast.walk(k.value))
+                           for k in c.keywords) or src(c.func).split(".")[-1] in NUMPY_MUTATORS
+                if mentions and (into or not src(c.func).startswith(PURE_READERS)):
                     out.append(("unknown", f"`{src(c)[:50]}` receives the buffer"))
                 if on_it and c.func.attr not in ("copy", "conj", "conjugate", "astype", "view", "real", "imag", "dot", "sum", "max", "min", "any", "all"):
                     out.append(("unknown", f"`{src(c)[:50]}` is a method of the buffer"))
@@ -2548,6 +2824,11 @@ def dirichlet_reset(chk, cls, m, callee, fn, lp, env):
                         findings.append(("stale", None, st, (state[1], conds)))
                 run(got, ev2, state, on_read=on_read)
     # ---- F4-dirichlet-reset
+    # AUDIT (VIOLATED): "a boundary entry is not zeroed for this mode before it is evaluated" is true of the code when every write of
+    # the buffer on the path was classified: writes through views and np.copyto / fill are followed, anything else that touches the
+    # buffer (in-place update, rebinding, a call that receives it, an index that is neither a recognised boundary position nor a
+    # range given by names, a store inside a nested block) puts an `unknown` note on the path and the verdict becomes undecided; the
+    # caller's loop body and the per-mode solve are composed, so it does not matter which of the two holds the reset
     rs = [f for f in findings if f[0] == "reset"]
     bad_ = [f for f in rs if f[1] is False]
     und_ = [f for f in rs if f[1] is None]
@@ -2589,7 +2870,7 @@ def dirichlet_reset(chk, cls, m, callee, fn, lp, env):
 
 def _stale_once(chk, callee, stale, undecided, cal=None, cenv=None, zloops=None):
     """F4-stale-coefficients: the unknowns of the mode are stored for this line on every path that reaches their evaluation"""
-    done = chk.__dict__.setdefault("_c14_stale_done", set())
+    done = _store(chk).setdefault("_c14_stale_done", set())
     if (callee, id(cal)) in done:
         return
     done.add((callee, id(cal)))
@@ -2612,6 +2893,9 @@ def _stale_once(chk, callee, stale, undecided, cal=None, cenv=None, zloops=None)
                 judged.append((f[0], True, f[2], ""))
                 continue
         judged.append(f)
+    # AUDIT (VIOLATED): "nothing was stored into the unknowns for this line" under the same completeness condition as
+    # F4-dirichlet-reset (every write classified, no `unknown` note on the path); a path that stores zeros / another value is undecided
+    # unless its condition says the right-hand side line is exactly zero
     bad_ = [f for f in judged if f[1] is False]
     und_ = [f for f in judged if f[1] is None]
     if bad_:
@@ -2690,7 +2974,14 @@ def carried_state(chk):
                 mode_dep, mode_key = deps & modevars, keyed & modevars
                 z_dep, z_key = deps & zvars, keyed & zvars
                 construct = f"{A} kept across modes: {src(st)[:60]}"
-                if mode_dep and not mode_key:
+                # AUDIT: "the later modes read the value of the first one" needs the VALUE to depend on the mode / line: a scratch
+                # buffer allocated lazily from the shape of the first line (np.empty_like(line), np.zeros(len(line)), ...) depends on it
+                # only through a shape - whether that shape is the same for every mode is not followed
+                if (mode_dep and not mode_key or z_dep and not z_key) and _shape_only(ex):
+                    chk.ob("F4-carried-state", st, construct, None,
+                           f"`{src(st)[:80]}` is a buffer allocated once from the shape of the first mode / line at hand: whether every "
+                           "later mode / line has the same shape is not followed", file=U.POISSON, func=q)
+                elif mode_dep and not mode_key:
                     chk.ob("F4-carried-state", st, construct, False,
                            f"`{src(st)[:80]}` is computed from the mode at hand (`{sorted(mode_dep)[0]}`) but stored once, under "
                            f"`{src(guards[0].test)[:50]}`, a test that does not name the mode: the solves of all the other modes (and of later "
@@ -2715,6 +3006,14 @@ def carried_state(chk):
                "by F4-dirichlet-reset / F4-stale-coefficients)", file=U.POISSON, func="<module>", nontrivial=False)
 
 
+ALLOCATORS = ("empty", "zeros", "ones", "empty_like", "zeros_like", "ones_like", "full", "full_like")
+
+
+def _shape_only(e):
+    """np.empty(...) / np.zeros_like(...) / ...: the value depends on its arguments through a shape and a dtype only"""
+    return isinstance(e, ast.Call) and src(e.func).split(".")[-1] in ALLOCATORS and src(e.func).split(".")[0] in ("np", "numpy")
+
+
 NOT_NONE = ...        # marker: an argument that is an object of the caller (one of its own required parameters), not None
 
 
@@ -2726,7 +3025,7 @@ def solve_view(chk, callee, cls=None, m=None):
     base = flat_view(chk, U.POISSON, CLS, callee)
     if cls is None:
         return base
-    cache = chk.__dict__.setdefault("_c14_solve_views", {})
+    cache = _store(chk).setdefault("_c14_solve_views", {})
     key = (callee, cls, m)
     if key in cache:
         return cache[key]
@@ -2864,7 +3163,11 @@ def per_mode(chk):
                         v_, where_, why_ = None, lp, "the per-mode solve is called from a nested block: not followed"
                     continue
                 lead = (src(conds[-1][2]) if conds else src(end if end is not None else lp)).splitlines()[0][:80]
-                others = [c for c in ast.walk(fn) if isinstance(c, ast.Call) and not (isinstance(c.func, ast.Attribute) and c.func.attr == callee)
+                # AUDIT: "the lines of the skipped modes keep whatever the buffer held" needs that nothing else writes them: no other
+                # call receives phi (the per-mode solve called from a second loop / outside this loop included), no store into phi
+                in_loop = {id(x) for x in ast.walk(lp)}
+                others = [c for c in ast.walk(fn) if isinstance(c, ast.Call) and
+                          not (isinstance(c.func, ast.Attribute) and c.func.attr == callee and id(c) in in_loop)
                           and any(isinstance(a_, ast.Name) and a_.id == "phi" for a_ in list(c.args) + [k.value for k in c.keywords])] + \
                     [n for n in ast.walk(fn) if isinstance(n, (ast.Assign, ast.AugAssign)) and any(
                         isinstance(t_, ast.Subscript) and src(env.x(t_.value, use=n)).startswith("phi.")
@@ -2889,9 +3192,15 @@ def per_mode(chk):
                 for e_ in _own_exprs(s_):
                     ex = env.x(e_, use=s_)
                     tabs += [n for n in ast.walk(ex) if isinstance(n, ast.Subscript) and src(n.value) in per_mode_tables]
-        wrong = sorted({src(n) for n in tabs if src(n.slice) != gi})
+        # AUDIT: "looked up with the wrong index" is true of the code only when the index is provably not the global mode index: it
+        # is the loop's local index (position in this process's block).  Any other index expression (a conversion, a sub-table taken
+        # at the global indices and then read at the local one, ...) is not compared by its text: undecided
+        wrong = sorted({src(n) for n in tabs if li is not None and li != gi and src(n.slice) == li})
+        foreign = sorted({src(n) for n in tabs if src(n.slice) != gi and not (li is not None and li != gi and src(n.slice) == li)})
         if wrong:
-            bad = f"per-mode tables are looked up with {wrong} instead of the global mode index `{gi}`"
+            bad = f"per-mode tables are looked up with {wrong}, the position in the local block, instead of the global mode index `{gi}`"
+        elif foreign:
+            und = [f"per-mode tables are looked up with {foreign}: not recognised as the global mode index `{gi}`"]
         else:
             # the matrix handed to the per-mode solve: the argument itself, or every definition of the local it names
             cal = flat_view(chk, U.POISSON, CLS, callee)
@@ -2917,8 +3226,19 @@ def per_mode(chk):
                 if so is not None and (bound is None or not so[2]):
                     followed = False
                 if isinstance(arg, ast.Name) and arg.id in env.bind:
-                    sites += [(d[1], composed(env.x(d[2], use=d[1]))) for d in env.bind[arg.id]
-                              if d[2] is not None and any(d[1] is x for x in ast.walk(lp))]
+                    # every definition of the local inside the loop, through copies (`a = b` with b defined on several branches)
+                    def leaf_defs(name, depth=0):
+                        out_ = []
+                        for d in env.bind.get(name, []):
+                            if d[2] is None or not any(d[1] is x for x in ast.walk(lp)):
+                                continue
+                            if isinstance(d[2], ast.Name) and d[2].id in env.bind and depth < 4 and \
+                                    any(b_[2] is not None and any(b_[1] is x for x in ast.walk(lp)) for b_ in env.bind[d[2].id]):
+                                out_ += leaf_defs(d[2].id, depth + 1)
+                            else:
+                                out_.append(d)
+                        return out_
+                    sites += [(d[1], composed(env.x(d[2], use=d[1]))) for d in leaf_defs(arg.id)]
                 else:
                     sites.append((_stmt_of(c), composed(env.x(arg, use=_stmt_of(c)))))
             generic = [(st_, ex) for st_, ex in sites if any(src(x) == "self._k2PhiPsi" for x in ast.walk(ex))]
@@ -3031,7 +3351,7 @@ def entry_points(chk):
     """(class, entry point, per-mode solve it calls): the per-mode solve is found by its role - the method of the solver that the
     loop over the modes calls with the potential grid - so that a renamed / merged per-mode solve is followed; the reference names
     are the fallback"""
-    cache = chk.__dict__.setdefault("_c14_entries", [])
+    cache = _store(chk).setdefault("_c14_entries", [])
     if cache:
         return cache[0]
     out = []
@@ -3164,10 +3484,19 @@ def mode_solve(chk):
         ok = bool(ok_t and ok_m and ok_r and ok_i)
         if not ok:
             rs = src(rhs)
+            # AUDIT: as in F4-mode-operator - only the per-mode solve's own local-index parameter is provably the wrong index
             wrong_idx = sorted({src(n) for e_ in (tgt, rhs, mat) for n in ast.walk(e_) if isinstance(n, ast.Subscript)
-                                and src(n.value) in tables_ and src(n.slice) not in ({gi} | gnames)})
+                                and src(n.value) in tables_ and src(n.slice) == li and li not in ({gi} | gnames)})
+            other_idx = sorted({src(n) for e_ in (tgt, rhs, mat) for n in ast.walk(e_) if isinstance(n, ast.Subscript)
+                                and src(n.value) in tables_ and src(n.slice) not in ({gi, li} | gnames)})
             if wrong_idx:
-                bad = f"per-mode tables are looked up with {wrong_idx} instead of the global mode index `{gi}`"
+                bad = (f"per-mode tables are looked up with {wrong_idx}, the position in the local block, instead of the global mode "
+                       f"index `{gi}`")
+            elif other_idx:
+                und = [f"per-mode tables are looked up with {other_idx}: not recognised as the global mode index `{gi}`"]
+            # AUDIT: the right-hand side, with the callee's locals and the callers' arguments substituted, IS a view of the
+            # coefficients of rho (an attribute / a slice of it, no product at all): the mass matrix is not applied anywhere on the
+            # way to the solve
             elif "self._spline.coeffs" in rs and "_massMatrix" not in rs and isinstance(rhs, (ast.Attribute, ast.Subscript)):
                 bad = ("the right-hand side of the solve is the coefficient vector of rho itself, not the mass matrix applied to it: "
                        "the equation solved is S phi = c(rho) instead of S phi = M c(rho)")
@@ -3285,8 +3614,13 @@ def evaluation(chk, name, view=None):
         tg = src(st.targets[0].slice).replace(" ", "") == ":"
         if comb and tg and mem.get("self._realMem") == "real" and mem.get("self._imagMem") == "imag" and pts_ok:
             ok = True
-        elif comb and tg and pts_bad:
+        elif comb and tg and pts_bad and _r_is_last_axis(chk):
+            # AUDIT: "getCoordVals(2) are the radial coordinates" is the layout contract of the solve: the entry point asserts that the
+            # last axis of the layout is r (checked: an assert on dims_order[-1] == 0 / a dims_order tuple ending in 0)
             bad = f"the solution spline is evaluated at `{pts_bad}` instead of the grid's radial coordinates phi.getCoordVals(2)"
+        # AUDIT: which part of the coefficients each buffer holds is followed statement by statement (load of the part, evaluation
+        # into the buffer) and the recombination is the plain real + 1j * imag: with the parts exchanged or duplicated the result is
+        # not the complex solution; any other recombination is undecided
         elif comb and tg and pts_ok and set(mem) >= {"self._realMem", "self._imagMem"} and \
                 all(mem[k_] in ("real", "imag") for k_ in ("self._realMem", "self._imagMem")):
             bad = (f"the real-part buffer holds the {mem['self._realMem']} part and the imaginary-part buffer the {mem['self._imagMem']} "
@@ -3294,6 +3628,19 @@ def evaluation(chk, name, view=None):
     chk.pat("F4-mode-solve", stores[0] if len(stores) == 1 else f_, f"{name}: evaluation at the radial nodes", ok,
             "real and imaginary parts are evaluated from the full coefficient vector at the grid's r coordinates and recombined",
             bad, file=U.POISSON, func=q)
+
+
+def _r_is_last_axis(chk):
+    """an entry point of the solver asserts that r (dimension 0) is the last axis of the layout the solve runs in"""
+    import re
+    for c in chk.mod(U.POISSON).tree.body:
+        if isinstance(c, ast.ClassDef) and c.name in (CLS, QNC):
+            for n in ast.walk(c):
+                if isinstance(n, ast.Assert):
+                    t = src(n.test).replace(" ", "")
+                    if "dims_order[-1]==0" in t or re.search(r"dims_order==\(\d,\d,0\)", t):
+                        return True
+    return False
 
 
 def _is_number(e):
@@ -3455,6 +3802,10 @@ def output_complete(chk):
                 verdicts.append((True, st_, ""))
                 continue
             where = end if end is not None else (conds[-1][2] if conds else loop)
+            if isinstance(end, (ast.Break, ast.Return)) and other_writes:
+                verdicts.append((None, where, f"a path leaves the z loop early, but phi is also written by `{src(other_writes[0])[:60]}`: "
+                                 "not followed"))
+                continue
             if isinstance(end, (ast.Break, ast.Return)):
                 verdicts.append((False, where, f"`{src(parent(end)).splitlines()[0][:80]}` leaves the z loop: the remaining lines of the mode are not written, phi "
                                  "keeps whatever the buffer held (the previous solve), so the result is no longer the solution for this rho"))
@@ -3508,10 +3859,28 @@ def output_complete(chk):
                    file=U.POISSON, func=q_)
 
 
+def block_signs(chk):
+    """{"sigma": sign the theta-independent operator is assembled with, "k2": sign the k2 block is stored with} (+1 / -1 / None),
+    from the assembly analysis (run silently when this check does not judge the assembly itself)"""
+    st = _store(chk)
+    if "_c14_signs" not in st:
+        try:
+            assembly(_Silent(chk))
+        except Exception:
+            pass
+        st.setdefault("_c14_signs", {"sigma": None, "k2": None, "blocks": {}})
+    return st["_c14_signs"]
+
+
 def mode_power(chk):
     """the coefficient of the k2 block in every per-mode operator is -(m_I)^2, counting the squaring done once in the constructor"""
     mt = mode_tables(chk)
     nsites = 0
+    sg = block_signs(chk)
+    # the coefficient of the stored k2 block must be -m^2 when (sign of the operator) x (sign of the k2 block) is +1, +m^2 when -1
+    qf = None if (sg.get("sigma") is None or sg.get("k2") is None) else sp.simplify(sg["sigma"] / sg["k2"])
+    if qf is not None and not qf.is_number:
+        qf = None
     for cls, m, _ in entry_points(chk):
         fn = flat_view(chk, U.POISSON, cls, m)
         env = env_of(chk, fn)
@@ -3569,14 +3938,26 @@ def mode_power(chk):
                     else:
                         eff = pw * init_exp
                         held = "the mode numbers themselves" if init_exp == 1 else f"the mode numbers raised to the power {init_exp} by the constructor"
-                        if sp.simplify(co + M ** pw) == 0 and eff == 2:
-                            ok, why = True, f"the k2 block enters with -({idx})^{pw}, `{T}` holding {held}: -m^2 D in total"
-                        elif sp.simplify(co + M ** pw) == 0 or sp.simplify(co - M ** pw) == 0:
+                        # AUDIT: the coefficient of the stored k2 block is a contract with the assembly: with the operator assembled as
+                        # sigma x (weak form) and the k2 block stored as s_k x Q[D phi psi r], -m^2 D needs the coefficient -(sigma/s_k) m^2
+                        q_ = qf if qf is not None else sp.Integer(1)
+                        minus, plus = sp.simplify(co + q_ * M ** pw) == 0, sp.simplify(co - q_ * M ** pw) == 0
+                        conv = "" if q_ == 1 else f" (the assembly stores operator / k2 block with the relative factor {q_})"
+                        shown_co = f"({co})".replace(str(M), idx)
+                        if (minus or plus) and eff != 2:
                             ok = False
-                            sign = "-" if sp.simplify(co + M ** pw) == 0 else "+"
-                            why = (f"the k2 block enters with {sign}({idx})^{pw} and `{T}` holds {held}: "
-                                   f"the operator contains {sign}m^{eff} D instead of -m^2 D" +
-                                   (" (+m and -m get different operators)" if eff % 2 else ""))
+                            why = (f"the k2 block enters with {shown_co} and `{T}` holds {held}: "
+                                   f"the operator contains a term in m^{eff} D instead of -m^2 D" +
+                                   (" (+m and -m get different operators)" if eff % 2 else "") + conv)
+                        elif minus:
+                            ok, why = True, f"the k2 block enters with {shown_co}, `{T}` holding {held}: -m^2 D in total{conv}"
+                        elif plus and qf is None:
+                            why = (f"the k2 block enters with {shown_co}: the sign / factor the k2 block and the operator are stored with "
+                                   "by the assembly was not established")
+                        elif plus:
+                            ok = False
+                            why = (f"the k2 block enters with {shown_co} and `{T}` holds {held}: "
+                                   f"the operator contains +m^{eff} D instead of -m^2 D{conv}")
                         else:
                             why = f"coefficient of the k2 block is `{co}`"
             except (KeyError, sp.PolynomialError) as e:
@@ -3696,17 +4077,312 @@ def refusal(chk):
                 else:
                     extras.append(src(e)[:60])
         both = lists == set(NEUMANN_LISTS)
+        # AUDIT: the polarity of every atom of the conjunction guarding the raise was followed (nested ifs, not / and / or, named
+        # intermediate values); the refusal fires for modes in both lists exactly when funcIsNull(rFactor) is false
         if both and null_neg and not null_pos:
             bad = ("pure-Neumann modes are refused when the reaction term does NOT vanish and accepted when it does: the singular "
                    "problems go through")
         elif both and null_pos and not null_neg and not extras and not env.amb:
             ok = True
-    if not raises and not any(isinstance(n, ast.Assert) and ({x.id for x in ast.walk(n.test) if isinstance(x, ast.Name)} & set(NEUMANN_LISTS))
-                              for n in ast.walk(fn)):
+    # AUDIT: "no refusal is left" needs every place the check may have moved to to have been looked at: the constructor with its new
+    # helpers written back; no call left in it that receives a Neumann list (a validation helper that could not be written back)
+    BUILTIN_READERS = ("len", "set", "list", "tuple", "frozenset", "sorted", "any", "all", "bool", "slice", "range", "enumerate", "zip")
+    handed_over = [c for c in ast.walk(fn) if isinstance(c, ast.Call) and src(c.func) not in BUILTIN_READERS and not src(c.func).startswith(("np.", "numpy."))
+                   and any(isinstance(x, ast.Name) and x.id in NEUMANN_LISTS for a_ in list(c.args) + [k.value for k in c.keywords]
+                           for x in ast.walk(a_))]
+    if not raises and not handed_over and \
+            not any(isinstance(n, ast.Assert) and ({x.id for x in ast.walk(n.test) if isinstance(x, ast.Name)} & set(NEUMANN_LISTS))
+                    for n in ast.walk(fn)):
         bad = "no refusal of ill-posed pure-Neumann modes is left in the constructor"
     chk.pat("F4-neumann-refusal", fn, "raise ValueError for modes Neumann at both ends with C == 0", ok,
             "modes with Neumann conditions on both boundaries are refused when the reaction term vanishes" +
             ("; " + "; ".join(sorted(set(notes))) if notes else ""), bad, file=U.POISSON, func=q)
+
+
+# =========================================================================================================
+# complex data path: rho holds Fourier modes (complex numbers); the interpolator that turns a line of rho into spline
+# coefficients, the spline that receives them and the coefficient buffer of the solution must all work on complex numbers, or the
+# imaginary part of every right-hand side is dropped (the solve is then not linear over C).  The element type is a contract
+# between the constructor (the dtype it passes) and the callee (what it does with it): both sides are composed.
+# =========================================================================================================
+
+PY_TYPES = {"complex": "complex", "float": "real", "int": "real"}
+NP_COMPLEX = {"complex128", "complex_", "cdouble", "complex64", "csingle", "clongdouble", "complex256", "complexfloating"}
+NP_REAL = {"float64", "float_", "double", "float32", "single", "longdouble", "float128", "floating", "int64", "int32", "int_"}
+STR_COMPLEX = {"complex", "complex128", "complex64", "c16", "c8", "D", "F", "cdouble"}
+STR_REAL = {"float", "float64", "float32", "f8", "f4", "d", "f", "double"}
+
+
+def _dtype_class(e):
+    """(family, kind) of an element-type expression: family 'py' (the builtins complex / float), 'np' (a numpy scalar type
+    np.complex128, ...), 'str' (a type name), 'dtype' (np.dtype(...)); kind 'complex' / 'real'.  None when not recognised"""
+    if isinstance(e, ast.Name) and e.id in PY_TYPES:
+        return "py", PY_TYPES[e.id]
+    if isinstance(e, ast.Attribute) and isinstance(e.value, ast.Name) and e.value.id in ("np", "numpy"):
+        if e.attr in NP_COMPLEX:
+            return "np", "complex"
+        if e.attr in NP_REAL:
+            return "np", "real"
+    if isinstance(e, ast.Constant) and isinstance(e.value, str):
+        if e.value in STR_COMPLEX:
+            return "str", "complex"
+        if e.value in STR_REAL:
+            return "str", "real"
+    if isinstance(e, ast.Call) and src(e.func) in ("np.dtype", "numpy.dtype") and len(e.args) == 1 and not e.keywords:
+        inner = _dtype_class(e.args[0])
+        return ("dtype", inner[1]) if inner else None
+    return None
+
+
+def _resolve_ctor_value(chk, e, env, use, fn, depth=0):
+    """the expression with constructor locals expanded and an attribute of the solver replaced by the one value the constructor
+    stores into it (stored once, at the top level of the constructor, before the use, and by no other method of the solver classes);
+    None when that cannot be established"""
+    ex = env.x(e, use=use)
+    if env.amb:
+        return None
+    if isinstance(ex, ast.Attribute) and isinstance(ex.value, ast.Name) and ex.value.id == "self" and depth < 4:
+        key = src(ex)
+        stores = [n for n in ast.walk(fn) if isinstance(n, (ast.Assign, ast.AugAssign, ast.AnnAssign))
+                  and any(src(t) == key for t in (n.targets if isinstance(n, ast.Assign) else [n.target]))]
+        if len(stores) != 1 or not isinstance(stores[0], ast.Assign) or parent(stores[0]) is not fn or not env.before(stores[0], use):
+            return None
+        for c in chk.mod(U.POISSON).tree.body:
+            if isinstance(c, ast.ClassDef) and c.name in (CLS, QNC):
+                for m_ in c.body:
+                    if isinstance(m_, ast.FunctionDef) and not (c.name == CLS and m_.name == "__init__"):
+                        if any(isinstance(n, ast.Attribute) and src(n) == key and isinstance(n.ctx, (ast.Store, ast.Del)) for n in ast.walk(m_)):
+                            return None
+        return _resolve_ctor_value(chk, stores[0].value, env, stores[0], fn, depth + 1)
+    return ex
+
+
+def _type_test(test, par, cls_):
+    """truth of a condition of the callee on its element-type parameter `par`, for an argument of class cls_ = (family, kind);
+    None when the condition is not one of the modelled forms"""
+    fam, kind = cls_
+    if isinstance(test, ast.UnaryOp) and isinstance(test.op, ast.Not):
+        v = _type_test(test.operand, par, cls_)
+        return None if v is None else not v
+    if isinstance(test, ast.BoolOp):
+        vals = [_type_test(v, par, cls_) for v in test.values]
+        if isinstance(test.op, ast.And):
+            return False if any(v is False for v in vals) else (None if any(v is None for v in vals) else True)
+        return True if any(v is True for v in vals) else (None if any(v is None for v in vals) else False)
+
+    def same_object(other):
+        """is the argument the very object `other` names (type objects compare by identity)?"""
+        oc = _dtype_class(other)
+        if oc is None or oc[0] not in ("py", "np") or fam not in ("py", "np"):
+            return None
+        if oc[0] != fam:
+            return False                    # the builtin complex and numpy.complex128 are different type objects
+        if fam == "py":
+            return oc[1] == kind
+        return oc[1] == kind if oc[1] != kind else None      # two numpy names of the same kind may or may not be aliases
+    if isinstance(test, ast.Compare) and len(test.ops) == 1:
+        a, b, op = test.left, test.comparators[0], test.ops[0]
+        if isinstance(op, (ast.Eq, ast.NotEq, ast.Is, ast.IsNot)) and (src(a) == par or src(b) == par):
+            other = b if src(a) == par else a
+            oc = _dtype_class(other)
+            if fam == "dtype" or (oc and oc[0] == "dtype"):
+                # np.dtype(...) == <anything naming a type> compares the coerced element types
+                v = (oc[1] == kind) if (oc and isinstance(op, (ast.Eq, ast.NotEq))) else None
+            elif fam == "str" or (oc and oc[0] == "str"):
+                v = None
+            else:
+                v = same_object(other)
+            if v is None:
+                return None
+            return v if isinstance(op, (ast.Eq, ast.Is)) else not v
+        if isinstance(op, (ast.In, ast.NotIn)) and src(a) == par and isinstance(b, (ast.Tuple, ast.List, ast.Set)):
+            vals = [same_object(x) for x in b.elts]
+            v = True if any(x is True for x in vals) else (None if any(x is None for x in vals) else False)
+            return None if v is None else (v if isinstance(op, ast.In) else not v)
+        # np.dtype(par).kind == 'c'
+        if isinstance(op, (ast.Eq, ast.NotEq)) and isinstance(a, ast.Attribute) and a.attr == "kind" and isinstance(a.value, ast.Call) and \
+                src(a.value.func) in ("np.dtype", "numpy.dtype") and len(a.value.args) == 1 and src(a.value.args[0]) == par and \
+                isinstance(b, ast.Constant) and b.value in ("c", "f"):
+            v = (kind == "complex") == (b.value == "c")
+            return v if isinstance(op, ast.Eq) else not v
+    if isinstance(test, ast.Call) and src(test.func) in ("np.issubdtype", "numpy.issubdtype") and len(test.args) == 2 and \
+            src(test.args[0]) == par and not test.keywords:
+        oc = _dtype_class(test.args[1])
+        if oc and src(test.args[1]).split(".")[-1] in ("complexfloating", "floating"):
+            return kind == oc[1]
+    return None
+
+
+def complex_data(chk):
+    """F4-complex-data: the interpolator of rho, the spline of rho and the solution buffer are built for complex numbers"""
+    q = f"{CLS}.__init__"
+    fn = flat_view(chk, U.POISSON, CLS, "__init__")
+    env = env_of(chk, fn)
+    # roles: the object whose compute_interpolant receives a line of rho in the per-mode solve, and the spline it fills
+    disc = next((cl for c_, m_, cl in entry_points(chk) if c_ == CLS and m_ == "solveEquation"), "_solveMode")
+    sm = solve_view(chk, disc, CLS, "solveEquation")
+    senv = env_of(chk, sm)
+    uses = [c for c in ast.walk(sm) if isinstance(c, ast.Call) and isinstance(c.func, ast.Attribute) and c.func.attr == "compute_interpolant"
+            and len(c.args) == 2 and not c.keywords and src(senv.x(c.args[0], use=_stmt_of(c))).replace(" ", "").startswith("rho.")]
+    if len(uses) != 1 or not (src(uses[0].func.value).startswith("self.") and src(uses[0].args[1]).startswith("self.")):
+        chk.ob("F4-complex-data", sm, "interpolation of the (complex) line of rho", None,
+               "the call <interpolator>.compute_interpolant(<line of rho>, <spline>) of the per-mode solve was not found", file=U.POISSON,
+               func=f"{CLS}.{disc}")
+        return
+    interp_attr, spline_attr = src(uses[0].func.value), src(uses[0].args[1])
+
+    def ctor_call(attr):
+        d = [n for n in ast.walk(fn) if isinstance(n, ast.Assign) and any(src(t) == attr for t in n.targets)]
+        if len(d) == 1 and isinstance(d[0].value, ast.Call) and parent(d[0]) is fn:
+            return d[0]
+        return None
+
+    def type_argument(site, callee_fn, skip_self=True):
+        """(resolved argument expression or None, the callee's parameter name) for the element-type parameter `dtype`"""
+        a = callee_fn.args
+        if a.vararg or a.kwarg:
+            return None, None
+        formals = [x.arg for x in a.args]
+        b = bind_call(site.value, formals, skip_self=skip_self)
+        par = "dtype" if "dtype" in formals else None
+        if b is None or par is None:
+            return None, par
+        if par in b:
+            return _resolve_ctor_value(chk, b[par], env, site, fn), par
+        dflt = dict(zip(formals[len(formals) - len(a.defaults):], a.defaults))
+        return dflt.get(par), par
+
+    # --- the interpolator: which LAPACK routines its constructor selects for the element type it is given
+    site = ctor_call(interp_attr)
+    ok, why = None, f"the construction of `{interp_attr}` was not found"
+    if site is not None and src(site.value.func).split(".")[-1] == "SplineInterpolator1D":
+        try:
+            cal = chk.func(U.INTERP, "SplineInterpolator1D.__init__")
+        except AnalysisError:
+            cal = None
+        arg, par = type_argument(site, cal) if cal is not None else (None, None)
+        cls_ = _dtype_class(arg) if arg is not None else None
+        why = f"the element type `{src(arg) if arg is not None else '?'}` handed to SplineInterpolator1D was not resolved to a known type"
+        if cal is not None and cls_ is not None:
+            def dispatch(fnode, par_, depth=0):
+                """(selections [(test, nodes run when true, nodes run when false)] on the element-type parameter, its name there, is it
+                rebound?) in a function, or - when it only hands the parameter on to one other class / function of the module - there"""
+                sel = [(n.test, n.body, n.orelse) for n in ast.walk(fnode) if isinstance(n, ast.If)
+                       and any(isinstance(x, ast.Name) and x.id == par_ for x in ast.walk(n.test))]
+                sel += [(n.test, [n.body], [n.orelse]) for n in ast.walk(fnode) if isinstance(n, ast.IfExp)
+                        and any(isinstance(x, ast.Name) and x.id == par_ for x in ast.walk(n.test))]
+                stored_ = any(isinstance(x, ast.Name) and x.id == par_ and isinstance(x.ctx, ast.Store) for x in ast.walk(fnode))
+                if sel or depth >= 2:
+                    return sel, par_, stored_
+                tree = chk.mod(U.INTERP).tree
+                onward = []
+                for c_ in ast.walk(fnode):
+                    if not (isinstance(c_, ast.Call) and isinstance(c_.func, ast.Name)):
+                        continue
+                    pos = [k_ for k_, a_ in enumerate(c_.args) if isinstance(a_, ast.Name) and a_.id == par_]
+                    kws = [k_.arg for k_ in c_.keywords if isinstance(k_.value, ast.Name) and k_.value.id == par_ and k_.arg]
+                    if not pos and not kws:
+                        continue
+                    target = next((x for x in tree.body if isinstance(x, (ast.ClassDef, ast.FunctionDef)) and x.name == c_.func.id), None)
+                    if isinstance(target, ast.ClassDef):
+                        init = next((m_ for m_ in target.body if isinstance(m_, ast.FunctionDef) and m_.name == "__init__"), None)
+                        formals_ = [a_.arg for a_ in init.args.args][1:] if init is not None else None
+                        target = init
+                    elif isinstance(target, ast.FunctionDef):
+                        formals_ = [a_.arg for a_ in target.args.args]
+                    else:
+                        formals_ = None
+                    if target is None or formals_ is None or any(isinstance(a_, ast.Starred) for a_ in c_.args):
+                        onward.append(None)
+                    elif kws:
+                        onward.append((target, kws[0]))
+                    elif pos[0] < len(formals_):
+                        onward.append((target, formals_[pos[0]]))
+                    else:
+                        onward.append(None)
+                if onward and all(o_ is not None for o_ in onward) and not stored_:
+                    # handed on to several helpers (one per kind of basis): the one that selects routines by the element type
+                    subs_ = [dispatch(o_[0], o_[1], depth + 1) for o_ in onward]
+                    subs_ = [x_ for x_ in subs_ if x_[0]]
+                    if len(subs_) == 1:
+                        return subs_[0]
+                return [], par_, stored_
+            tests, par, stored = dispatch(cal, par)
+            why = "the selection of the solve routines by the element type in SplineInterpolator1D.__init__ was not found"
+            if len(tests) == 1 and not stored:
+                class _T:
+                    pass
+                t = _T()
+                t.test, t.body, t.orelse = tests[0]
+                v = _type_test(t.test, par, cls_)
+
+                def routines(stmts):
+                    names = {x.id for s_ in stmts for x in ast.walk(s_) if isinstance(x, ast.Name)} | \
+                        {x.attr for s_ in stmts for x in ast.walk(s_) if isinstance(x, ast.Attribute)}
+                    z = {n_ for n_ in names if n_.startswith("zgb")}
+                    d = {n_ for n_ in names if n_.startswith("dgb")}
+                    return "complex" if z and not d else ("real" if d and not z else None)
+                taken = routines(t.body if v else t.orelse) if v is not None else None
+                other = routines(t.orelse if v else t.body) if v is not None else None
+                why = (f"the test `{src(t.test)}` of SplineInterpolator1D.__init__ on the element type `{src(arg)}` / the routines of its "
+                       "branches were not decided")
+                if taken == "complex":
+                    ok, why = True, (f"SplineInterpolator1D is built with `{src(arg)}`, for which its test `{src(t.test)}` selects the complex "
+                                     "band solver (zgbtrf / zgbtrs): the imaginary part of rho is interpolated")
+                elif taken == "real" and other == "complex":
+                    # AUDIT: true of the code when the argument was resolved to one type object (done), the callee has exactly one
+                    # selection on the parameter and does not rebind it (done), the branch taken holds the real routines only and the
+                    # data is complex (the line of rho of the per-mode solve: Fourier modes)
+                    ok = False
+                    ident = ""
+                    if cls_[0] == "np" and cls_[1] == "complex":
+                        ident = (f" (`{src(arg)}` is numpy's scalar type, a different object from the builtin `complex`, and type objects "
+                                 "compare by identity)")
+                    why = (f"SplineInterpolator1D is built with the element type `{src(arg)}`; its constructor selects the routines with "
+                           f"`{src(t.test)}`, which is {'true' if v else 'false'} for this argument{ident}: the real band solver "
+                           "(dgbtrf / dgbtrs) is used for the lines of rho, which hold complex Fourier modes - their imaginary part is cast "
+                           "away (a ComplexWarning only), so solveEquation returns the solution for Re(rho): not linear over the complex "
+                           "numbers, wrong for every mode with a non-zero imaginary part")
+    chk.ob("F4-complex-data", site if site is not None else fn, f"{interp_attr} = SplineInterpolator1D(<basis>, dtype=complex)", ok, why,
+           file=U.POISSON, func=q)
+    # --- the spline that receives the coefficients of rho, and the solution buffer: arrays of complex numbers
+    site = ctor_call(spline_attr)
+    ok, why = None, f"the construction of `{spline_attr}` was not found"
+    if site is not None and src(site.value.func).split(".")[-1] == "Spline1D":
+        try:
+            cal = chk.func(U.SPLINES, "Spline1D.__init__")
+        except AnalysisError:
+            cal = None
+        arg, par = type_argument(site, cal) if cal is not None else (None, None)
+        cls_ = _dtype_class(arg) if arg is not None else None
+        why = f"the element type `{src(arg) if arg is not None else '?'}` handed to Spline1D was not resolved to a known type"
+        if cal is not None and cls_ is not None:
+            # the callee hands the parameter to the allocation of its coefficients
+            allocs = [c for c in ast.walk(cal) if isinstance(c, ast.Call) and src(c.func).split(".")[-1] in ("zeros", "empty", "ones")
+                      and (any(k.arg == "dtype" and src(k.value) == par for k in c.keywords) or (len(c.args) == 2 and src(c.args[1]) == par))]
+            why = "the allocation of the coefficients with the element type in Spline1D.__init__ was not found"
+            if len(allocs) == 1:
+                ok = cls_[1] == "complex"
+                why = (f"the coefficients of `{spline_attr}` are allocated with `{src(arg)}`: complex numbers" if ok else
+                       f"the spline `{spline_attr}` that receives the interpolant of rho is built with the element type `{src(arg)}`: its "
+                       "coefficients are real, the imaginary part of the Fourier modes of rho is dropped when they are stored")
+    chk.ob("F4-complex-data", site if site is not None else fn, f"{spline_attr} = Spline1D(<basis>, <complex type>)", ok, why,
+           file=U.POISSON, func=q)
+    d = [n for n in ast.walk(fn) if isinstance(n, ast.Assign) and any(src(t) == COEFFS for t in n.targets)]
+    ok, why = None, "the allocation of the solution buffer self._coeffs was not found"
+    if len(d) == 1 and isinstance(d[0].value, ast.Call) and src(d[0].value.func).split(".")[-1] in ("empty", "zeros", "ones") and \
+            src(d[0].value.func).split(".")[0] in ("np", "numpy"):
+        c = d[0].value
+        targ = c.args[1] if len(c.args) > 1 else next((k.value for k in c.keywords if k.arg == "dtype"), None)
+        arg = _resolve_ctor_value(chk, targ, env, d[0], fn) if targ is not None else ast.Name(id="float", ctx=ast.Load())
+        cls_ = _dtype_class(arg) if arg is not None else None
+        why = f"the element type `{src(targ) if targ is not None else '?'}` of the solution buffer was not resolved to a known type"
+        if cls_ is not None:
+            ok = cls_[1] == "complex"
+            why = ("the solution buffer holds complex numbers" if ok else
+                   f"the solution buffer self._coeffs is allocated with the element type `{src(arg)}`: the imaginary part of the solved "
+                   "coefficients is dropped when they are stored")
+    chk.ob("F4-complex-data", d[0] if len(d) == 1 else fn, "self._coeffs = np.empty(<nbasis>, <complex type>)", ok, why, file=U.POISSON, func=q)
 
 
 def run(chk):
@@ -3726,6 +4402,7 @@ def run(chk):
     chk.in_file(U.POISSON)
     assembly(chk)
     per_mode(chk)
+    complex_data(chk)
     refusal(chk)
     solver_index_spaces(ViewedCheck(chk))
     chk.floor("F4-weak-form", 7)
